@@ -281,6 +281,7 @@ static void c06(const Trace& t, const Analysis& A, Verdict& V) {
 		if (e.sid != e.state) V.add(6, i, F("control.stateId()=%d inside a callback of s%d", sidOf(e.sid), sidOf(e.state)));
 		if (!e.ctxOk) V.add(6, i, "control.context() is not the machine's own context object");
 		if (!e.ctmplOk) V.add(6, i, "control.isActive<T>() disagrees with control.isActive(id)");
+		if (!e.cprevOk) V.add(6, i, "control.previousTransitions() differs from machine.previousTransition()");
 		if (e.cAct != e.mActMask) V.add(6, i, F("control.isActive(id) mask %llx != machine.isActive(id) mask %llx (active=%d)", (unsigned long long) e.cAct, (unsigned long long) e.mActMask, sidOf(e.mAct)));
 		if (f.hasPlans && !(e.planFlags & PF_CTL_EQUAL)) V.add(6, i, "control.plan() shows a different plan than machine.plan()");
 		if (an.outKnown && !f.bare && !(e.req == an.out)) V.add(6, i, F("control.request()=%s but the outstanding request is %s", trStr(e.req).c_str(), trStr(an.out).c_str()));
@@ -368,6 +369,11 @@ static void c11(const Trace& t, const Analysis& A, Verdict& V) {
 		if (!winUsable(A, w)) continue;
 		if (w.type == WT_TEARDOWN) continue;
 		const Ev& e = t.ev[w.e - 1];
+		if (w.processing) {
+			// the history describes the last *completed* step until this one is over
+			const Ev& b0 = t.ev[w.b];
+			for (uint32_t i = w.b + 1; i + 1 < w.e; ++i) { const Ev& x = t.ev[i]; if (x.inst == w.inst && x.kind == EV_CB && (!(x.prev == b0.prev) || x.prev.valid != b0.prev.valid)) { V.add(11, i, F("inside s%d.%s previousTransition() already reads %s, before the step it read %s (the step is not over)", sidOf(x.state), methName(x.method), trStr(x.prev).c_str(), trStr(b0.prev).c_str())); break; } }
+		}
 		if ((w.processing || w.activation) && !f.bare && w.lostRequest.valid)
 			V.add(11, w.e - 1, F("the most recent request that no guard cancelled was %s, but it was never processed: previousTransition()=%s describes an earlier request", trStr(w.lostRequest).c_str(), trStr(e.prev).c_str()));
 		if (w.processing && !f.bare) {
